@@ -28,12 +28,12 @@ func init() {
 
 func runC04(c *Ctx) {
 	p := c.Progs["mod"]
-	c.Rule("C04.D", "dedup decision dominates the worker start", 5)
+	c.Rule("C04.D", "dedup decision dominates the worker start; the window of seen IDs is never reset", 6)
 	c.Rule("C04.O", "the dedup LRU is owned by the polling goroutine", 1)
 	c.Rule("C04.N", "dedup window ≥ 1000", 1)
 	c.Rule("C04.F", "a worker forwards once", 8)
 	ruleLoopSharedCapture(c, p, "C04.F", 1, "agent")
-	c.Rule("C04.P", "the proxy offers each ID exactly once and loses none", 8)
+	c.Rule("C04.P", "the proxy offers each ID exactly once and loses none; the agent reads the list whole", 9)
 	ruleNoServerDeadlines(c, p, "C04.P")
 	// … and the agent hands every listed ID to its polling loop: the stand-alone proxy offers
 	// an ID once, so an ID cut off a long list (a per-poll cap) is never fetched
@@ -68,6 +68,38 @@ func runC04(c *Ctx) {
 		c.Check("C04.P", "agent:every-listed-id-reaches-the-loop", p, f.Pos(), bad == "" && n > 0, "ListPendingRequests returns the parsed list as it is", "ListPendingRequests returns something other than the whole list parseRequestIDs produced (return at "+bad+"): IDs that the stand-alone proxy has handed out once are dropped and their clients never answered")
 	}
 
+	// … and reads the list whole: the cap on the size of a pending list is the generous one the
+	// code has always had (1 MiB), not a lower one shared with log excerpts — a list that is
+	// cut fails to parse as a whole, and the IDs in it were offered once
+	if f := c.need(p, "C04.P", "agent/utils.parseRequestIDs"); f != nil {
+		bad := ""
+		n := 0
+		EachInstr(f, func(i ssa.Instruction) {
+			var lim ssa.Value
+			if al, ok := i.(*ssa.Alloc); ok && NamedType(al.Type()) == "io.LimitedReader" {
+				if v, has := LiteralField(al, "N"); has {
+					lim = v
+				} else {
+					bad = "an io.LimitedReader without a constant N at " + p.Pos(al.Pos())
+				}
+			}
+			if cc := CallOf(i); cc != nil {
+				switch CalleeName(cc) {
+				case "io.LimitReader", "net/http.MaxBytesReader":
+					lim = PArgs(cc)[len(PArgs(cc))-1]
+				}
+			}
+			if lim == nil {
+				return
+			}
+			n++
+			if k, isC := ConstInt(lim); !isC || k < 1<<20 {
+				bad = fmt.Sprintf("a limit of %s bytes at %s", PathOf(lim), p.Pos(i.Pos()))
+			}
+		})
+		c.Check("C04.P", "agent:pending-list-read-whole", p, f.Pos(), bad == "", fmt.Sprintf("%d size cap(s) on the pending list, none below 1 MiB", n), "the pending list is read through "+bad+": a list longer than that is truncated, no longer parses, and every ID in it — offered by the stand-alone proxy exactly once — is lost")
+	}
+
 	const lruGet = "(*github.com/golang/groupcache/lru.Cache).Get"
 	const lruAdd = "(*github.com/golang/groupcache/lru.Cache).Add"
 	if f := c.need(p, "C04.D", "agent.pollForNewRequests"); f != nil {
@@ -78,6 +110,44 @@ func runC04(c *Ctx) {
 			}
 		})
 		newc := c.UniqueCall("C04.N", p, f, false, "github.com/golang/groupcache/lru.New")
+		// the window of seen IDs lives as long as the agent polls: it is created once, by a poller
+		// that is started once — a poller restarted in a loop (after a pause for an unhealthy
+		// backend, say) starts with an empty window and forwards again whatever is still listed
+		{
+			bad := ""
+			if newc != nil && InLoop(newc.Block()) {
+				bad = "the dedup cache is created inside a loop at " + p.Pos(newc.Pos())
+			}
+			sites := 0
+			var up func(fn *ssa.Function, depth int)
+			up = func(fn *ssa.Function, depth int) {
+				if depth > 4 {
+					return
+				}
+				for _, g := range p.AllFuncs {
+					if !p.IsModFunc(g) {
+						continue
+					}
+					EachInstrRaw(g, func(i ssa.Instruction) {
+						cc := CallOf(i)
+						if cc == nil || StaticFunc(cc) != fn {
+							return
+						}
+						if depth == 0 {
+							sites++
+						}
+						if InLoop(i.Block()) {
+							bad = FuncName(fn) + " is called in a loop at " + p.Pos(i.Pos())
+						}
+						if g.Name() != "main" {
+							up(TopFunc(g), depth+1)
+						}
+					})
+				}
+			}
+			up(f, 0)
+			c.Check("C04.D", "poll:seen-window-lives-as-long-as-the-agent", p, f.Pos(), bad == "" && sites >= 1, fmt.Sprintf("the dedup cache is created once per poller and the poller is started once (%d call site(s), none in a loop)", sites), bad+": every new poller starts with an empty window of seen IDs, so requests that are still listed (their responses not yet posted) are forwarded a second time")
+		}
 		if len(gos) != 1 {
 			c.Unk("C04.D", "poll:go-site", p, f.Pos(), fmt.Sprintf("expected one go statement in pollForNewRequests, found %d", len(gos)))
 		} else if newc != nil {
@@ -459,6 +529,9 @@ func lruConfinement(p *Prog, newc ssa.Instruction) string {
 				if h := syncHelperCallee(x); h != nil && depth < 3 {
 					// handed to a new helper that runs synchronously on the polling goroutine: follow it there
 					for k, a := range PArgs(&x.Call) {
+						if a == nil {
+							continue
+						}
 						if a == cache && k < len(h.Params) {
 							use(h.Params[k], depth+1)
 						}
@@ -532,6 +605,9 @@ func lruConfinement(p *Prog, newc ssa.Instruction) string {
 			case *ssa.Call:
 				if h := syncHelperCallee(x); h != nil {
 					for k, a := range PArgs(&x.Call) {
+						if a == nil {
+							continue
+						}
 						if a == sp && k < len(h.Params) {
 							useStruct(h.Params[k], field, depth+1)
 						}
